@@ -481,14 +481,18 @@ def check_prompt_fn(c, repo):
     f = repo.func('pxssh:pxssh.prompt')
     g = f.cfg
     ks = cfg_nodes_with_call(f, lambda k: callee_last(k) == 'expect')
-    c.need(len(ks) == 1 and isinstance(ks[0][0].ast, ast.Assign), 'prompt(): i = self.expect([...]) not found')
+    c.need(len(ks) == 1 and (isinstance(ks[0][0].ast, ast.Assign) or ks[0][0].kind == 'test'), 'prompt(): i = self.expect([...]) not found')
     n, k = ks[0]
     lst = k.args[0]
     ok = isinstance(lst, ast.List) and [norm(e) for e in lst.elts] == ['self.PROMPT', 'TIMEOUT']
     c.check(ok, f, k, 'prompt() waits for [PROMPT, TIMEOUT]', witness=norm(lst), kind='ast', tag='prompt-list')
-    iv = n.ast.targets[0].id
     tim_idx = [i for i, e in enumerate(lst.elts) if norm(e) == 'TIMEOUT'] if isinstance(lst, ast.List) else []
-    t = relation_tests(g, 'eq', lambda e: is_name(e, iv), lambda e: isinstance(e, ast.Constant))
+    if n.kind == 'test':
+        # the index is compared where it is produced: `if self.expect([...]) == 1:`
+        t = relation_tests(g, 'eq', lambda e: e is k, lambda e: isinstance(e, ast.Constant))
+    else:
+        iv = n.ast.targets[0].id
+        t = relation_tests(g, 'eq', lambda e: is_name(e, iv), lambda e: isinstance(e, ast.Constant))
     c.need(len(t) == 1, 'prompt(): index test not found')
     tn, lab = t[0]
     rel = relation(tn.ast)
